@@ -169,29 +169,50 @@ Proof.
 Qed.
 
 (* with should_lock = false the lock table is never read *)
+Lemma resolve_locks fuel s l p : resolve fuel (set_locks s l) p = resolve fuel s p.
+Proof. revert p; induction fuel as [|f IH]; intros p; cbn [resolve names set_locks]; destruct (names s p) as [[i| |t]|]; auto. Qed.
+Lemma follow_locks s l p : follow (set_locks s l) p = follow s p.
+Proof. apply resolve_locks. Qed.
+Lemma is_dir_locks s l p : is_dir (set_locks s l) p = is_dir s p.
+Proof. reflexivity. Qed.
+Lemma write_target_locks s l p : write_target (set_locks s l) p = write_target s p.
+Proof. unfold write_target. rewrite follow_locks. destruct (follow s p) as [q [i| |t]|q|]; auto. Qed.
+Lemma file_bytes_locks s l p : file_bytes (set_locks s l) p = file_bytes s p.
+Proof. unfold file_bytes. rewrite follow_locks. destruct (follow s p) as [q [i| |t]|q|]; auto. Qed.
+Lemma exists_follow_locks s l p : exists_follow (set_locks s l) p = exists_follow s p.
+Proof. unfold exists_follow. now rewrite follow_locks. Qed.
+
+Ltac head_destruct :=
+  repeat (match goal with
+          | |- (match ?x with _ => _ end) = _ => destruct x
+          | |- (if ?x then _ else _) = _ => destruct x
+          end; cbn [fst snd]).
+
+Lemma partial_copy_locks s l a b now n : partial_copy (set_locks s l) a b now n = set_locks (partial_copy s a b now n) l.
+Proof.
+  unfold partial_copy. rewrite follow_locks, write_target_locks. change (inodes (set_locks s l)) with (inodes s).
+  head_destruct; reflexivity.
+Qed.
+
+Lemma nat_ncall_locks c s l : (forall a, c <> LockW a) ->
+  nat_ncall c (set_locks s l) = (fst (nat_ncall c s), set_locks (snd (nat_ncall c s)) l).
+Proof.
+  intros Hc. destruct c; cbn [nat_ncall]; try (exfalso; eapply Hc; reflexivity);
+    unfold src_bytes; rewrite ?follow_locks, ?write_target_locks, ?file_bytes_locks, ?exists_follow_locks, ?is_dir_locks;
+    change (names (set_locks s l)) with (names s); change (inodes (set_locks s l)) with (inodes s);
+    head_destruct; reflexivity.
+Qed.
+
 Lemma do_call_locks f c s l : (forall a, c <> LockW a) ->
   do_call f c (set_locks s l) = (fst (do_call f c s), set_locks (snd (do_call f c s)) l).
 Proof.
-  intros Hc. unfold do_call.
+  intros Hc.
   assert (Hnat : nat_call c (set_locks s l) = (fst (nat_call c s), set_locks (snd (nat_call c s)) l)).
-  { unfold nat_call. destruct c; cbn [ncall nat_ncall]; try (exfalso; eapply Hc; reflexivity);
-      unfold write_through, write_target, src_bytes, file_bytes, exists_follow, follow, is_dir;
-      change (names (set_locks s l)) with (names s); change (inodes (set_locks s l)) with (inodes s);
-      repeat match goal with
-             | |- context [resolve ?f (set_locks s l) ?p] =>
-                 change (resolve f (set_locks s l) p) with (resolve f s p)
-             end;
-      repeat (match goal with |- context [match ?x with _ => _ end] => destruct x eqn:? end; cbn [fst snd negb]);
-      try reflexivity. }
-  destruct f as [ft|]; [|exact Hnat].
+  { unfold nat_call. apply nat_ncall_locks. intros a. destruct c; cbn [ncall]; try discriminate. exfalso; eapply Hc; reflexivity. }
+  unfold do_call. destruct f as [ft|]; [|exact Hnat].
   destruct (is_query c); [exact Hnat|]. cbn [fst snd]. f_equal.
   destruct c; cbn [ncall fail_nstate]; try reflexivity.
-  destruct (fpartial ft); [|reflexivity]. unfold partial_copy, write_target, follow, is_dir.
-  change (names (set_locks s l)) with (names s); change (inodes (set_locks s l)) with (inodes s).
-  repeat match goal with
-         | |- context [resolve ?f (set_locks s l) ?p] => change (resolve f (set_locks s l) p) with (resolve f s p)
-         end.
-  repeat (match goal with |- context [match ?x with _ => _ end] => destruct x eqn:? end); reflexivity.
+  destruct (fpartial ft); [|reflexivity]. apply partial_copy_locks.
 Qed.
 
 Lemma nolock_run {R} (p : prog R) : nolock p -> forall o i s l w nf,
